@@ -555,3 +555,64 @@ Definition holds_validate (a o : list N) : bool :=
   | rc :: n :: rest => (rc =? 0) && list_eqb rest (flat_map (fun p => [fst p; snd p]) expected) && (n =? N.of_nat (length expected))
   | _ => false
   end.
+
+(* ---------------- families agree_enc / agree_dec / agree_ob (C08) ---------------- *)
+Definition set_nth (l : list N) (i : nat) (v : N) : list N := firstn i l ++ v :: skipn (S i) l.
+Definition pad5 (l : list N) : list N := match l with [x] => [x; 0; 0; 0; 0] | _ => l end.
+Definition run_agree_enc (a : list N) : list N :=
+  flat_map (fun e => pad5 (run_encode (set_nth a 4 e))) [0; 1; 2; 3; 4].
+Definition run_agree_dec (a : list N) : list N :=
+  flat_map (fun d => let r := run_decode (set_nth a 5 d) in N.of_nat (length r) :: r) [0; 1; 2; 3].
+Definition pad7 (l : list N) : list N := match l with [x] => [x; 0; 0; 0; 0; 0; 0] | _ => l end.
+Definition run_agree_ob (a : list N) : list N :=
+  flat_map (fun e => pad7 (run_outboard (a ++ [e]))) [0; 1; 2; 3; 4; 5; 6; 7; 8; 9; 10; 11; 12; 13; 14].
+
+Fixpoint chunks_of (n : nat) (l : list N) (fuel : nat) : list (list N) :=
+  match fuel with
+  | O => []
+  | S f => match l with [] => [] | _ => firstn n l :: chunks_of n (skipn n l) f end
+  end.
+Definition all_equal (ls : list (list N)) : bool :=
+  match ls with [] => true | x :: r => forallb (list_eqb x) r end.
+
+(* sync, fsm and item-stream validating encoders agree (bytes, error variant and payload); the two
+   non-validating encoders agree with each other, and with the validating ones on an intact store *)
+Definition holds_agree_enc (a o : list N) : bool :=
+  match chunks_of 5 o 6 with
+  | [e0; e1; e2; e3; e4] =>
+      let ncor := arg a 6 in
+      all_equal [e0; e1; e4] && list_eqb e2 e3 &&
+      (if ncor =? 0 then list_eqb e2 e0 else true) &&
+      negb (existsb (fun x => x =? PANIC) o)
+  | _ => false
+  end.
+
+Fixpoint split_lp (l : list N) (fuel : nat) : list (list N) :=
+  match fuel with
+  | O => []
+  | S f => match l with
+           | [] => []
+           | n :: r => firstn (N.to_nat n) r :: split_lp (skipn (N.to_nat n) r) f
+           end
+  end.
+(* same items, same error variant and payload for the iterator drivers; same result, target and
+   outboard for the two decode_ranges drivers *)
+Definition holds_agree_dec (a o : list N) : bool :=
+  match split_lp o 5 with
+  | [d0; d1; d2; d3] =>
+      negb (existsb (fun x => x =? PANIC) o) &&
+      (* outcome, payload, io kind, consumed *)
+      list_eqb (firstn 4 d0) (firstn 4 d1) && list_eqb (skipn 9 d0) (skipn 9 d1) &&
+      list_eqb (firstn 4 d2) (firstn 4 d3) && list_eqb (skipn 6 d2) (skipn 6 d3) &&
+      list_eqb (firstn 3 d0) (firstn 3 d2)
+  | _ => false
+  end.
+(* byte-identical outboards and roots: all pre-order creation paths agree, all post-order ones agree *)
+Definition holds_agree_ob (a o : list N) : bool :=
+  match chunks_of 7 o 16 with
+  | [e0; e1; e2; e3; e4; e5; e6; e7; e8; e9; e10; e11; e12; e13; e14] =>
+      negb (existsb (fun x => x =? PANIC) o) &&
+      all_equal [e0; e2; e5; e10; e13] && all_equal [e1; e3; e4; e6; e7; e11; e12] &&
+      all_equal (map (fun e => firstn 2 e) [e0; e1; e8; e9; e14]) && list_eqb e9 e14
+  | _ => false
+  end.
